@@ -731,32 +731,25 @@ func (pc *PeerConnection) CreateOffer(options *OfferOptions) (SessionDescription
 
 		// include unmatched local transceivers
 		if !isPlanB { //nolint:nestif
-			// update the greater mid if the remote description provides a greater one
-			if pc.currentRemoteDescription != nil {
-				var numericMid int
-				for _, media := range pc.currentRemoteDescription.parsed.MediaDescriptions {
-					mid := getMidValue(media)
-					if mid == "" {
-						continue
-					}
-					numericMid, err = strconv.Atoi(mid)
-					if err != nil {
-						continue
-					}
-					if numericMid > pc.greaterMid {
+			// update the greater mid if a remote description (current or pending)
+			// or an existing transceiver provides a greater one
+			for _, remoteDesc := range []*SessionDescription{pc.currentRemoteDescription, pc.pendingRemoteDescription} {
+				if remoteDesc == nil {
+					continue
+				}
+				for _, media := range remoteDesc.parsed.MediaDescriptions {
+					if numericMid, errMid := strconv.Atoi(getMidValue(media)); errMid == nil && numericMid > pc.greaterMid {
 						pc.greaterMid = numericMid
 					}
 				}
 			}
 			for _, t := range currentTransceivers {
-				if mid := t.Mid(); mid != "" {
-					numericMid, errMid := strconv.Atoi(mid)
-					if errMid == nil {
-						if numericMid > pc.greaterMid {
-							pc.greaterMid = numericMid
-						}
-					}
-
+				if numericMid, errMid := strconv.Atoi(t.Mid()); errMid == nil && numericMid > pc.greaterMid {
+					pc.greaterMid = numericMid
+				}
+			}
+			for _, t := range currentTransceivers {
+				if t.Mid() != "" {
 					continue
 				}
 				pc.greaterMid++
